@@ -284,7 +284,7 @@ def make_case(i, s):
 def run(tier):
     rep = Report("C04", tier)
     s = seed()
-    n = 300 if tier == "quick" else 6000
+    n = 300 if tier == "quick" else common.tscale(6000)
     cases, meta = [], {}
     for i in range(n):
         c, names = make_case(i, s)
